@@ -19,7 +19,7 @@ LEVEL = "exploration"
 RULE = (
     "Hypothesis: affine ensembles f_rk(x)=a_rk.x+b_rk in the user domain, R in 1..4, n in 1..4, P in 1..6, K in 1..2, "
     "C in 0..1; weights incl. zeros; variable masks; built-in samplers (all six methods, shared or not) and an injected "
-    "deterministic design sampler (scaled identity, random orthogonal, degenerate); magnitudes in [1e-3,1]; bounds and "
+    "deterministic design sampler (scaled identity, random orthogonal, degenerate); magnitudes in [1e-3,1]; a quarter of the cases with the whole problem (variables, bounds, magnitudes, function offsets) expressed in units of 1e-9..1e6; bounds and "
     "boundary types that may clip/mirror; failed perturbations/realizations and both success thresholds; sort/cvar "
     "filters; mean and stddev; merge_realizations; optional VariableScaler; combined and split evaluation. Oracle: exact "
     "gradient (mean: weighted slopes; stddev: chain rule) whenever the *reported* perturbation-difference matrix of every "
@@ -30,7 +30,7 @@ ASSUMPTIONS = [
     "failed-realization flags and filter weights are taken from the reported results (decided by C03/C04/C05)",
     "tolerance |g - g_exact| <= 1e-6 * (1 + max|slope|) per entry; fixed entries exactly 0.0",
     "stddev cases with sigma < 1e-6 are counted as trivial (derivative not defined)",
-    "difference matrices whose smallest singular value is below 1e-6 are treated as missing the conditioning bound "
+    "difference matrices whose smallest singular value is below 1e-6 (times the unit of the case) are treated as missing the conditioning bound "
     "(perturbations of rounding-error size cannot be exact in floating point)",
     "merged mode is compared when realizations share perturbations (identical difference matrices) or have identical slopes",
 ]
@@ -96,13 +96,13 @@ def build(case: dict[str, Any]) -> tuple[EnOptConfig, AffineEvaluator, PluginMan
     return config, ev, manager, transforms
 
 
-def well_conditioned(d: np.ndarray) -> bool:
+def well_conditioned(d: np.ndarray, unit: float = 1.0) -> bool:
     if d.shape[0] < d.shape[1] or d.shape[1] == 0:
         return False
     s = np.linalg.svd(d, compute_uv=False)
     s2 = s**2
     # (differences of the order of the rounding error, e.g. a perturbation mirrored back onto x, carry no information)
-    return bool(s2.sum() > 0 and s2.min() >= 0.011 * s2.sum() and s.min() >= 1e-6)  # noqa: PLR2004
+    return bool(s2.sum() > 0 and s2.min() >= 0.011 * s2.sum() and s.min() >= 1e-6 * unit)  # noqa: PLR2004
 
 
 def run_case(case: dict[str, Any]) -> dict[str, Any]:  # noqa: C901, PLR0912, PLR0915
@@ -194,7 +194,7 @@ def run_case(case: dict[str, Any]) -> dict[str, Any]:  # noqa: C901, PLR0912, PL
             amax = 1.0 + float(np.max(np.abs(slopes)))
             if case["merge"]:
                 rows_d = np.concatenate([d_all[r][succ[r]] for r in contrib]) if contrib else np.zeros((0, d_all.shape[-1]))
-                if not well_conditioned(rows_d):
+                if not well_conditioned(rows_d, case.get("unit", 1.0)):
                     continue
                 shared = all(np.array_equal(d_all[r], d_all[contrib[0]]) and np.array_equal(succ[r], succ[contrib[0]]) for r in contrib)
                 identical = all(np.array_equal(slopes[r], slopes[contrib[0]]) for r in contrib)
@@ -212,7 +212,7 @@ def run_case(case: dict[str, Any]) -> dict[str, Any]:  # noqa: C901, PLR0912, PL
                                     f"merged gradient {got.tolist()} != exact {exact.tolist()} (equals the solution with only the "
                                     "right-hand sides multiplied by the weights)", case)
                 raise Violation("merged-gradient", f"merged gradient {got.tolist()} != exact {exact.tolist()}", case)
-            if not all(well_conditioned(d_all[r][succ[r]]) for r in contrib):
+            if not all(well_conditioned(d_all[r][succ[r]], case.get("unit", 1.0)) for r in contrib):
                 continue
             if method == "mean":
                 exact = (w[:, None] * slopes).sum(axis=0)
@@ -225,7 +225,7 @@ def run_case(case: dict[str, Any]) -> dict[str, Any]:  # noqa: C901, PLR0912, PL
                 m = float(np.sum(w * f))
                 var = npos / (npos - 1) * float(np.sum(w * (f - m) ** 2))
                 sigma = np.sqrt(var)
-                if sigma < 1e-6:  # noqa: PLR2004
+                if sigma < 1e-6:  # noqa: PLR2004  (absolute: ropt itself reports a zero gradient for a spread below 1e-8)
                     continue
                 abar = (w[:, None] * slopes).sum(axis=0)
                 exact = (npos / (npos - 1)) / sigma * (w[:, None] * (f - m)[:, None] * (slopes - abar)).sum(axis=0)
@@ -319,6 +319,16 @@ def hypothesis_shard(item: dict[str, Any]) -> Collector:
             case["slopes"] = base * r_n
             boffs = case["offsets"][: (k_n + c_n)]
             case["offsets"] = boffs * r_n
+        case["unit"] = 1.0
+        if draw(st.integers(0, 3)) == 0:  # the whole problem expressed in another unit: variables, bounds, magnitudes and function offsets
+            unit = draw(st.sampled_from([1e-9, 1e-6, 1e-3, 1e3, 1e6]))
+            case["unit"] = unit
+            for key in ("x", "lb", "ub", "magnitudes", "offsets"):
+                case[key] = [v * unit for v in case[key]]
+            if case["offsets_v"] is not None:
+                case["offsets_v"] = [v * unit for v in case["offsets_v"]]
+            if case["split"] not in (False, "same"):
+                case["split"] = "same"
         nan_n = draw(st.sampled_from([0, 0, 0, 1, 2]))
         case["nans"] = sorted({(draw(st.integers(0, r_n - 1)), draw(st.integers(-1, p_n - 1)), draw(st.integers(0, k_n + c_n - 1)))
                                for _ in range(nan_n)})
@@ -338,7 +348,7 @@ def hypothesis_shard(item: dict[str, Any]) -> Collector:
                                                   ("no-gradient" if info["no_gradient"] else "ill-conditioned"))),
             f"split={case['split']}", "scaled" if case["scales"] else "unscaled",
             "stddev" if "stddev" in case["estimators"] else "mean-only", "failures" if case["nans"] else "no-failures",
-            "bound-hit" if info["hit_bound"] else "inside", "filtered" if case["filters"] else "unfiltered"))
+            "bound-hit" if info["hit_bound"] else "inside", "filtered" if case["filters"] else "unfiltered", f"unit={case['unit']:g}"))
 
     run_hypothesis(col, cases(), body, seed=item["seed"], max_examples=item["examples"])
     return col
